@@ -2,7 +2,7 @@
 macros of src/bail.rs expanded in place), for EVERY argument vector, list of inputs and outcome of each step.
 
 `main()` is extracted verbatim.  Everything it calls outside itself is a stand-in with an ASSUMED contract (listed in
-the evidence): the library (`xt::Translator` -- its calls are recorded in a ghost log), `Cli::parse_args` (lexopt),
+the evidence): the library (`xt::Translator` -- its calls are recorded in a ghost log), the `lexopt` crate (an abstract token stream behind `Parser::next` / `value`),
 `InputPath::{open, extension_format}` (the extension table itself is proved by the Kani unit U-EXT), the iterator
 `InputPaths` (assumed lawful), `pipecheck::Writer` (Kani unit U-PIPE), std's stdio handles, `process::exit`, and the
 `Display` impls used in messages.  `xt::Format` is extracted verbatim from src/lib.rs.
@@ -16,7 +16,9 @@ What is proved (loop invariant, i.e. at every loop head, hence at every later ex
   * C15: nothing is pending in the translator at a loop head: every finished input has been flushed (flush returned Ok)
     before the next input is opened, so an error exit (which runs no destructors) cannot lose finished output, and a
     normal return leaves nothing unflushed;
-  * C13 (one clause): the translator is never created when stdout is a terminal and the target is MessagePack.
+  * C13: `Cli::parse_args` (verbatim) returns Err exactly for the command lines the token-stream model `parse_model` calls
+    invalid, and a faithful Cli otherwise (any length); the translator is never created when stdout is a terminal and the
+    target is MessagePack.
 
 What the extraction changes (markers, undone by the token check): (T8) `for path in input_paths {` is replaced by its
 language-reference desugaring `let mut it = input_paths; loop { let path = match it.next() { None => break, Some(x) => x };`
@@ -50,9 +52,9 @@ verus! {
 #[verifier::external_type_specification] #[verifier::external_body] pub struct ExStdin(std::io::Stdin);
 #[verifier::external_type_specification] #[verifier::external_body] pub struct ExStdinLock<'a>(std::io::StdinLock<'a>);
 #[verifier::external_type_specification] #[verifier::external_body] #[verifier::reject_recursive_types(W)] pub struct ExBufWriter<W: ?Sized + std::io::Write>(std::io::BufWriter<W>);
-// C13: the only statuses main() itself may exit with are 1 (failure) and 2 (invalid command line); 0 is the normal return
+// C13: the only statuses xt exits with are 0 (help / version in parse_args, or the normal return), 1 (failure) and 2 (invalid command line)
 pub assume_specification [std::process::exit] (code: i32) -> !
-    requires code == 1 || code == 2;
+    requires 0 <= code <= 2;
 pub assume_specification [std::io::stderr] () -> std::io::Stderr;
 pub assume_specification [std::io::Stderr::lock] (s: &std::io::Stderr) -> std::io::StderrLock<'static>;
 pub assume_specification [std::io::stdout] () -> std::io::Stdout;
@@ -159,7 +161,75 @@ pub mod memmap2 {
     #[verifier::external]
     impl std::ops::Deref for Mmap { type Target = [u8]; fn deref(&self) -> &[u8] { unimplemented!() } }
 }
-pub mod lexopt { use vstd::prelude::*; #[verifier::external_body] pub struct Error { _e: () } }
+// ---- stand-in for the lexopt crate: an abstract token stream (ASSUMED contract of lexopt's argument splitting) ----
+pub mod lexopt {
+    use vstd::prelude::*;
+    #[verifier::external_body] pub struct Error { _e: () }
+    impl<'a> From<&'a str> for Error { #[verifier::external_body] fn from(s: &'a str) -> Self { unimplemented!() } }
+    #[verifier::external_body] pub struct Parser { _p: () }
+    pub enum Arg<'a> { Short(char), Long(&'a str), Value(std::ffi::OsString) }
+    // how next() classifies a token
+    pub enum Item { Short(char), LongHelp, LongVersion, LongOther, Value, Broken }
+    // one token of the command line as lexopt hands it out (attached values such as -fjson count as two tokens)
+    pub struct Tok { pub item: Item, pub text: &'static str }
+    pub uninterp spec fn rest(p: &Parser) -> Seq<Tok>;
+    pub uninterp spec fn env_args() -> Seq<Tok>;
+    pub uninterp spec fn os_text(v: &std::ffi::OsString) -> &'static str;
+    pub open spec fn arg_is(a: Arg<'_>, t: Tok) -> bool {
+        match a {
+            Arg::Short(c) => t.item == Item::Short(c),
+            Arg::Long(s) => (t.item == Item::LongHelp <==> s == "help") && (t.item == Item::LongVersion <==> s == "version")
+                            && (t.item == Item::LongHelp || t.item == Item::LongVersion || t.item == Item::LongOther),
+            Arg::Value(v) => t.item == Item::Value,
+        }
+    }
+    impl Parser {
+        #[verifier::external_body]
+        pub fn from_env() -> (p: Parser) ensures rest(&p) == env_args(), { unimplemented!() }
+        #[verifier::external_body]
+        pub fn next(&mut self) -> (r: Result<Option<Arg<'_>>, Error>)
+            ensures
+                rest(old(self)).len() == 0 ==> (r matches Ok(None) && rest(final(self)).len() == 0),
+                rest(old(self)).len() > 0 ==> {
+                    let t = rest(old(self))[0];
+                    &&& rest(final(self)) == rest(old(self)).drop_first()
+                    &&& (t.item == Item::Broken <==> r is Err)
+                    &&& (r matches Ok(o) ==> (o matches Some(a) && arg_is(a, t)))
+                },
+        { unimplemented!() }
+        // the value of the option just seen: the next token whatever it looks like; missing at the end of the command line
+        #[verifier::external_body]
+        pub fn value(&mut self) -> (r: Result<std::ffi::OsString, Error>)
+            ensures
+                rest(old(self)).len() == 0 ==> r is Err && rest(final(self)).len() == 0,
+                rest(old(self)).len() > 0 ==> (r matches Ok(v) && os_text(&v) == rest(old(self))[0].text && rest(final(self)) == rest(old(self)).drop_first()),
+        { unimplemented!() }
+    }
+    impl<'a> Arg<'a> {
+        #[verifier::external_body]
+        pub fn unexpected(self) -> Error { unimplemented!() }
+    }
+    pub trait ValueExt {
+        fn parse_with<F, T, E>(&self, func: F) -> (r: Result<T, Error>)
+            where F: FnOnce(&str) -> Result<T, E>;
+    }
+    impl ValueExt for std::ffi::OsString {
+        #[verifier::external_body]
+        fn parse_with<F, T, E>(&self, func: F) -> (r: Result<T, Error>)
+            where F: FnOnce(&str) -> Result<T, E>
+            ensures
+                r matches Ok(t) ==> func.ensures((os_text(self),), Ok::<T, E>(t)),
+                r is Err ==> exists|e: E| func.ensures((os_text(self),), Err::<T, E>(e)),
+        { unimplemented!() }
+    }
+    pub mod prelude { pub use super::Arg::*; pub use super::ValueExt; }
+}
+#[verifier::external_type_specification] #[verifier::external_body] pub struct ExOsString(std::ffi::OsString);
+pub assume_specification [<std::path::PathBuf as std::convert::From<std::ffi::OsString>>::from] (s: std::ffi::OsString) -> std::path::PathBuf;
+#[verifier::external_body]
+const fn version_string() -> &'static str { "xt" }
+#[verifier::external_body]
+fn print_long_help() { unimplemented!() }
 pub type LexoptError = lexopt::Error;
 
 // what the extension table says for a path (proved equal to the documented table by the Kani unit U-EXT)
@@ -168,6 +238,44 @@ pub uninterp spec fn ext_format_spec(p: &InputPath) -> Option<Format>;
 pub open spec fn resolve(from: Option<Format>, p: &InputPath) -> Option<Format> {
     match from { Some(f) => Some(f), None => ext_format_spec(p) }
 }
+// ---- what a valid xt command line is, over lexopt's token stream (C13 / C14) ----
+pub open spec fn name_format(s: &str) -> Option<Format> {
+    if s == "j" || s == "json" { Some(Format::Json) }
+    else if s == "m" || s == "msgpack" { Some(Format::Msgpack) }
+    else if s == "t" || s == "toml" { Some(Format::Toml) }
+    else if s == "y" || s == "yaml" { Some(Format::Yaml) }
+    else { None }
+}
+pub enum Outcome { Valid(Option<Format>, Option<Format>, nat), Invalid, Exits }
+// -f / -t take the next token as their value, may be given once each and need a valid format name; every other token
+// that is not an option is an input path; -V / --version / -h / --help end the run; anything else is invalid
+pub open spec fn parse_model(toks: Seq<lexopt::Tok>, from: Option<Format>, to: Option<Format>, n: nat) -> Outcome
+    decreases toks.len()
+{
+    if toks.len() == 0 { Outcome::Valid(from, to, n) } else {
+        match toks[0].item {
+            lexopt::Item::Broken => Outcome::Invalid,
+            lexopt::Item::Short(c) =>
+                if c == 'f' {
+                    if from is Some || toks.len() < 2 { Outcome::Invalid } else {
+                        match name_format(toks[1].text) { None => Outcome::Invalid, Some(f) => parse_model(toks.skip(2), Some(f), to, n) }
+                    }
+                } else if c == 't' {
+                    if to is Some || toks.len() < 2 { Outcome::Invalid } else {
+                        match name_format(toks[1].text) { None => Outcome::Invalid, Some(f) => parse_model(toks.skip(2), from, Some(f), n) }
+                    }
+                } else if c == 'V' || c == 'h' { Outcome::Exits } else { Outcome::Invalid },
+            lexopt::Item::LongVersion => Outcome::Exits,
+            lexopt::Item::LongHelp => Outcome::Exits,
+            lexopt::Item::LongOther => Outcome::Invalid,
+            lexopt::Item::Value => parse_model(toks.drop_first(), from, to, n + 1),
+        }
+    }
+}
+pub broadcast proof fn lemma_tok_skip2(s: Seq<lexopt::Tok>)
+    requires s.len() >= 2,
+    ensures #[trigger] s.skip(2) =~= s.drop_first().drop_first(), s.drop_first()[0] == s[1],
+{ }
 pub open spec fn stdin_seen(seen: Seq<InputPath>) -> bool { exists|i: int| 0 <= i < seen.len() && (#[trigger] seen[i]) is Stdin }
 #[verifier::external_body]
 proof fn axiom_input_paths_lawful<I: Iterator<Item = InputPath>>(p: &InputPaths<I>)
@@ -195,6 +303,15 @@ where
 { unimplemented!() }
 '''
 
+# C13 / C14: parse_args returns Err exactly for the command lines the model calls invalid, and for a valid one the Cli holds
+# the -f value, the -t value (JSON when absent) and one path per non-option token
+PARSE_SPEC = '''ensures ({
+        let m = parse_model(lexopt::env_args(), None, None, 0);
+        &&& (r matches Ok(cli) ==> (m matches Outcome::Valid(f, t, n) && cli.from == f && cli.to == (match t { Some(x) => x, None => Format::Json }) && cli.input_pathnames@.len() == n))
+        &&& (r is Err ==> m == Outcome::Invalid)
+    }),'''
+PARSE_INV = '''invariant parse_model(lexopt::env_args(), None, None, 0) == parse_model(lexopt::rest(&parser), from, to, input_pathnames@.len() as nat),'''
+PARSE_WITH = '''parse_with(|s: &str| -> (r: Result<Format, &'static str>) ensures (match r { Ok(f) => name_format(s) == Some(f), Err(_) => name_format(s) is None }) { try_parse_format(s) })'''
 OPEN_SPEC = '''ensures self is Stdin ==> (r matches Ok(i) ==> i is Stdin),
         self is File ==> (r matches Ok(i) ==> !(i is Stdin)),'''
 EXT_SPEC = 'ensures r == ext_format_spec(self),'
@@ -203,7 +320,8 @@ NAMES_SPEC = '''ensures
         (s == "j" || s == "json") <==> r matches Ok(Format::Json),
         (s == "m" || s == "msgpack") <==> r matches Ok(Format::Msgpack),
         (s == "t" || s == "toml") <==> r matches Ok(Format::Toml),
-        (s == "y" || s == "yaml") <==> r matches Ok(Format::Yaml),'''
+        (s == "y" || s == "yaml") <==> r matches Ok(Format::Yaml),
+        match r { Ok(f) => name_format(s) == Some(f), Err(_) => name_format(s) is None },'''
 
 LOOP_INV = '''invariant verus_iter.obeys_prophetic_iter_laws(),
             !tr_dirty(&translator),
@@ -238,7 +356,13 @@ ITEMS = [
     dict(src='repo:src/main.rs', kind='enum', name='Input'),
     dict(src='repo:src/main.rs', kind='enum', name='InputPaths'),
     dict(raw='impl Cli {'),
-    dict(src='repo:src/main.rs', kind='fn', name='parse_args', within_impl=r'\bimpl\s+Cli\b', mode='external_body', contract=dict()),
+    dict(src='repo:src/main.rs', kind='fn', name='parse_args', within_impl=r'\bimpl\s+Cli\b',
+         contract=dict(ret='r', spec=PARSE_SPEC, attrs=['#[verifier::exec_allows_no_decreases_clause]', '#[verifier::loop_isolation(false)]'],
+                       prologue='broadcast use group_fmt_xt, lemma_tok_skip2;',
+                       loops=[dict(ordinal=0, kind='while', clauses=PARSE_INV)],
+                       rewrites=[dict(find=r'parse_with\s*\(\s*try_parse_format\s*\)', to=PARSE_WITH),
+                                 # (inside verus! the elided lifetime of a local const is not inferred)
+                                 dict(find=r'const\s+VERSION\s*:\s*&\s*str', to="exec const VERSION: &'static str")])),
     dict(raw='}\nimpl InputPath {'),
     dict(src='repo:src/main.rs', kind='fn', name='open', within_impl=r'\bimpl\s+InputPath\b', mode='external_body', contract=dict(ret='r', spec=OPEN_SPEC)),
     dict(src='repo:src/main.rs', kind='fn', name='extension_format', within_impl=r'\bimpl\s+InputPath\b', mode='external_body', contract=dict(ret='r', spec=EXT_SPEC)),
